@@ -168,7 +168,7 @@ theorem shrunkPl_facts (x : S) (bytes : List Byte) :
 theorem mp_save_spec (x : S) (bytes : List Byte) : SaveOp (J x) bytes (save x bytes).1 (J (save x bytes).2) := by
   cases hf : x.d.strings.find? (·.bytes == bytes) with
   | some y =>
-    have hf' : (JDD.calm (J x).d).strings.find? (·.bytes == bytes) = some y := hf
+    have hf' : (JDD.calm (J x).d bytes.length).strings.find? (·.bytes == bytes) = some y := hf
     obtain ⟨a, b, c⟩ := JDD.save_via (J x) bytes y.id (J (save x bytes).2) _ (saveString_found hf')
       (by rw [mp_save_eq_found hf]; rfl) (by rw [mp_save_eq_found hf]; rfl)
     rw [mp_save_eq_found hf] at a b c ⊢
@@ -177,9 +177,9 @@ theorem mp_save_spec (x : S) (bytes : List Byte) : SaveOp (J x) bytes (save x by
     unfold JDD.LB at h ⊢
     simp only [J, List.length_map] at h ⊢; exact h
   | none =>
-    have hf' : (JDD.calm (J x).d).strings.find? (·.bytes == bytes) = none := hf
+    have hf' : (JDD.calm (J x).d bytes.length).strings.find? (·.bytes == bytes) = none := hf
     obtain ⟨p1, p2, p3, p4, hn⟩ := shrunkPl_facts x bytes
-    have hsv := saveString_new hf'
+    have hsv := saveString_short hf' (Nat.le_refl _)
     rw [JDD.calm_failsAt] at hsv
     simp only [Bool.false_eq_true, if_false] at hsv
     obtain ⟨a, b, c⟩ := JDD.save_via (J x) bytes x.d.nextNode (J (save x bytes).2) _ hsv
